@@ -388,6 +388,38 @@ fn wiring_case(kind: &str, n: usize, max_deltas: usize, flush_interval_ms: u64) 
     Ok(store.log_len() as u64)
 }
 
+/// The same with ONE transient store failure while the node is still running (store call `fault_at`, counted from the
+/// start; only indices below the number of calls a fault-free run makes before its shutdown begins are used): the failed
+/// flush must put its updates back, later flushes and the final one succeed, so nothing accepted may be missing.
+fn wiring_case_faulted(kind: &str, n: usize, max_deltas: usize, fault_at: usize) -> Result<u64, (String, String)> {
+    let store = Arc::new(VObjStore::new());
+    store.set_plan(&[(fault_at, ObjFault::Fail)]);
+    wiring_case_on(store.clone(), &format!(" [store call #{fault_at} fails once]"), kind, n, max_deltas, 3_600_000).map_err(|(sig, d)| (format!("{sig} after-one-transient-store-failure"), d))?;
+    Ok(store.log_len() as u64)
+}
+
+thread_local! {
+    /// number of store operations logged when the graceful shutdown of the last wiring case began
+    static CALLS_BEFORE_SHUTDOWN: std::cell::Cell<usize> = std::cell::Cell::new(0);
+    /// ... and when start_workers had returned (a failure before that means the process never came up)
+    static CALLS_AFTER_START: std::cell::Cell<usize> = std::cell::Cell::new(0);
+}
+
+/// how many operations a store has seen (0 for stores that do not count)
+trait StoreCalls {
+    fn calls_made(&self) -> usize;
+}
+impl StoreCalls for VObjStore {
+    fn calls_made(&self) -> usize {
+        self.calls()
+    }
+}
+impl StoreCalls for redis_sim::streaming::LocalFsObjectStore {
+    fn calls_made(&self) -> usize {
+        0
+    }
+}
+
 /// the same over the repository's local-filesystem object store in a scratch directory (removed afterwards)
 fn wiring_case_local_fs(kind: &str, n: usize, max_deltas: usize, flush_interval_ms: u64) -> Result<u64, (String, String)> {
     static SERIAL: AtomicU64 = AtomicU64::new(0);
@@ -400,7 +432,9 @@ fn wiring_case_local_fs(kind: &str, n: usize, max_deltas: usize, flush_interval_
     r.map(|_| 0).map_err(|(sig, d)| (format!("{sig} local-fs"), d))
 }
 
-fn wiring_case_on<S: redis_sim::streaming::ObjectStore + Clone + Send + Sync + 'static>(store: Arc<S>, store_label: &str, kind: &str, n: usize, max_deltas: usize, flush_interval_ms: u64) -> Result<(), (String, String)> {
+fn wiring_case_on<S: redis_sim::streaming::ObjectStore + Clone + Send + Sync + 'static + StoreCalls>(store: Arc<S>, store_label: &str, kind: &str, n: usize, max_deltas: usize, flush_interval_ms: u64) -> Result<(), (String, String)> {
+    let store_for_calls = store.clone();
+    let calls_so_far = move || store_for_calls.calls_made();
     use redis_sim::production::ReplicatedShardedState;
     use redis_sim::replication::ReplicationConfig;
     use redis_sim::streaming::{StreamingConfig, StreamingIntegration};
@@ -417,6 +451,7 @@ fn wiring_case_on<S: redis_sim::streaming::ObjectStore + Clone + Send + Sync + '
         let mut node = ReplicatedShardedState::new(repl.clone());
         let (handles, sender) = integ.start_workers().await.map_err(|e| ("wiring: start_workers failed".to_string(), format!("{desc}: {e}")))?;
         node.set_delta_sink(sender);
+        CALLS_AFTER_START.with(|c| c.set(calls_so_far()));
         for c in wiring_commands(kind, n) {
             let cmd = vh::resp::parse(&vh::resp::line(&c)).expect("workload parses");
             let _ = node.execute(cmd).await;
@@ -425,6 +460,9 @@ fn wiring_case_on<S: redis_sim::streaming::ObjectStore + Clone + Send + Sync + '
         }
         let want: std::collections::BTreeMap<String, String> = node.snapshot_state().await.iter().map(|(k, v)| (k.clone(), vh::persist_kit::project(v))).collect();
         node.clear_delta_sink();
+        // give the bridge and the actor the time they would have had (virtual time: the clock is paused and auto-advances)
+        tokio::time::sleep(Duration::from_millis(50)).await;
+        CALLS_BEFORE_SHUTDOWN.with(|c| c.set(calls_so_far()));
         handles.shutdown().await;
         // a new process: new node, recovery through the same integration object API
         let node2 = ReplicatedShardedState::new(repl);
@@ -457,6 +495,19 @@ fn main() {
     if let Some(path) = &args.replay {
         let r = vh::report::load_replay(path);
         if r["wiring"] == json!(true) {
+            if let Some(fa) = r["fault_at"].as_u64() {
+                match wiring_case_faulted(r["kind"].as_str().unwrap(), r["n"].as_u64().unwrap() as usize, r["max_deltas"].as_u64().unwrap() as usize, fa as usize) {
+                    Err((sig, detail)) => {
+                        println!("{detail}");
+                        println!("VIOLATION property=C12 replay={} ({sig})", path.display());
+                        std::process::exit(1);
+                    }
+                    Ok(_) => {
+                        println!("replay: no violation");
+                        std::process::exit(0);
+                    }
+                }
+            }
             let f = if r["local_fs"] == json!(true) { wiring_case_local_fs } else { wiring_case };
             match f(r["kind"].as_str().unwrap(), r["n"].as_u64().unwrap() as usize, r["max_deltas"].as_u64().unwrap() as usize, r["flush_interval_ms"].as_u64().unwrap()) {
                 Err((sig, detail)) => {
@@ -583,6 +634,25 @@ fn main() {
     // the whole wiring
     let wiring_items: Vec<(usize, usize, u64)> = (0..WIRING_WORKLOADS.len()).flat_map(|w| [(w, 10usize, 0u64), (w, 10, 3_600_000), (w, 100, 3_600_000), (w, 100_000, 3_600_000)]).collect();
     let wiring_ops = AtomicU64::new(0);
+    // ... with one transient store failure at every call index before the shutdown
+    let mut faulted_cases = 0u64;
+    for (kind, n, md) in [("distinct-sets", 25usize, 10usize), ("set-del-hset-mix", 40, 10), ("distinct-sets", 101, 100)] {
+        let _ = wiring_case(kind, n, md, 3_600_000);
+        let k = CALLS_BEFORE_SHUTDOWN.with(|c| c.get());
+        let k0 = CALLS_AFTER_START.with(|c| c.get());
+        let idx: Vec<usize> = (k0..k).collect();
+        let seen = std::sync::Mutex::new(BTreeSet::new());
+        par::par_map(&idx, |_, i| match std::panic::catch_unwind(|| wiring_case_faulted(kind, n, md, *i)) {
+            Ok(Ok(_)) => {}
+            Ok(Err((sig, detail))) => {
+                if seen.lock().unwrap().insert(sig.clone()) {
+                    rep.violation(sig, detail, json!({"wiring": true, "kind": kind, "n": n, "max_deltas": md, "fault_at": i}));
+                }
+            }
+            Err(p) => rep.violation("wiring: panic after-one-transient-store-failure".to_string(), vh::panic_text(&p), json!({"wiring": true, "kind": kind, "n": n, "max_deltas": md, "fault_at": i})),
+        });
+        faulted_cases += (k - k0.min(k)) as u64;
+    }
     // ... and a few of them over the repository's local-filesystem store
     let local_fs_items: Vec<(&str, usize, usize, u64)> = vec![("distinct-sets", 1, 10, 0), ("distinct-sets", 25, 10, 3_600_000), ("set-del-hset-mix", 40, 10, 3_600_000), ("distinct-sets", 101, 100, 3_600_000)];
     for (kind, n, md, fi) in &local_fs_items {
@@ -618,7 +688,7 @@ fn main() {
         "cases_in_which_a_fault_fired": faults_hit.load(Ordering::Relaxed),
         "crash_images_recovered": images.load(Ordering::Relaxed),
         "write_buffer_cases": wb,
-        "whole_wiring": {"cases": wiring_items.len(), "cases_over_the_local_filesystem_store": local_fs_items.len(), "store_operations": wiring_ops.load(Ordering::Relaxed),
+        "whole_wiring": {"cases": wiring_items.len(), "cases_with_one_transient_store_failure_before_shutdown": faulted_cases, "cases_over_the_local_filesystem_store": local_fs_items.len(), "store_operations": wiring_ops.load(Ordering::Relaxed),
             "rule": "a real ReplicatedShardedState with the delta sink of StreamingIntegration::start_workers (bridge task, persistence actor, StreamingPersistence over the logging store; compaction worker off) executes 1 .. 1000 commands (distinct SETs at counts around the buffer limits, overwrites, a SET/DEL/HSET/HDEL/APPEND mix, counters) under four write-buffer configurations (max_deltas 10 with flush interval 0, 10, 100, 100000 with a one-hour interval); after WorkerHandles::shutdown() a new node recovers through StreamingIntegration::recover: its replication state must equal the first node's, and TYPE of the keys must agree"},
         "write_buffer_overlapping_flushes": {"schedules_explored": wb_race_execs, "distinct_outcomes": wb_race_outcomes, "all_schedules_of_every_case_explored": wb_race_exhaustive,
             "programs": WB_PROGRAMS.iter().map(|(a, b)| format!("A=[{a}] B=[{b}]")).collect::<Vec<_>>(),
